@@ -91,7 +91,7 @@ def parse(text):
             p = line.split(" ", 8)
             op, sid, kind, code, pos, ticks, state, snap = int(p[1]), int(p[2]), p[3], p[4], int(p[5]), int(p[6]), int(p[7]), p[8]
             c = Call(op, sid, kind, code, pos, ticks, state, None)
-            is_clone = kind == "FEND"
+            is_clone = kind in ("FEND", "FENDC")
             c.events.extend(pending_events)
             pending_events = []
             if snap == "=":
